@@ -143,7 +143,36 @@ def _oracle_slit(case, res):
     return out[:3]
 
 
+def _impl_epochless(case):
+    """a temporal frame without a zero point (its values are absolute MJD in a given scale); other temporal frames exist in the process"""
+    ta = cf.TemporalFrame(time.Time([], format="mjd", scale=case["scale"]), name="abs_time")
+    other = cf.TemporalFrame(time.Time("2020-01-01T00:00:00", format="isot", scale="utc"), unit=u.s, name="rel_time")   # created later
+    det = cf.CoordinateFrame(naxes=1, axes_type=("SPATIAL",), axes_order=(0,), name="detector", unit=(u.pix,))
+    w = gw.WCS([(det, models.Scale(case["step"]) | models.Shift(case["mjd0"])), (ta, None)])
+    res = {"other": other.name}
+    try:
+        v = float(w.pixel_to_world_values(case["p"]))
+        o = w.pixel_to_world(case["p"])
+        res.update(value=v, kind=type(o).__name__, scale=getattr(o, "scale", None), mjd=float(o.mjd) if hasattr(o, "mjd") else None,
+                   classes_scale=str(w.world_axis_object_classes))
+    except Exception as e:
+        res["err"] = C.exc_enum(e) + ":" + str(e)[:100]
+    return res
+
+
+def _oracle_epochless(case, res):
+    if "err" in res:
+        return [("epochless", "pixel_to_world on a temporal frame without a zero point raised %s" % res["err"])]
+    want = case["mjd0"] + case["step"] * case["p"]
+    if res["kind"] != "Time" or res["scale"] != case["scale"] or abs(res["mjd"] - want) > 1e-9 or abs(res["value"] - want) > 1e-9:
+        return [("epochless", "absolute-time frame (MJD, %s): world value %r, object %s(scale=%s, mjd=%r); expected MJD %r in %s" %
+                 (case["scale"], res["value"], res["kind"], res["scale"], res["mjd"], want, case["scale"]))]
+    return []
+
+
 def impl(case):
+    if case.get("kind") == "epochless":
+        return _impl_epochless(case)
     if case.get("kind") == "slit1":
         return _impl_slit(case)
     try:
@@ -245,6 +274,8 @@ def _key30(case):
 
 
 def oracle(case, res):
+    if case.get("kind") == "epochless":
+        return _oracle_epochless(case, res)
     if case.get("kind") == "slit1":
         return _oracle_slit(case, res)
     out = []
@@ -261,6 +292,15 @@ def oracle(case, res):
                 if res[field][i] != sub[field][k]:
                     out.append((k11 or "metadata", "world axis %d is local axis %d of sub-frame %d (%s) but its %s is %r, the sub-frame says %r" %
                                 (i, k, f, case["subframes"][f]["kind"], name, res[field][i], sub[field][k])))
+    # what a celestial sub-frame says about itself, against the sky system it was built for: longitude first, latitude second
+    CEL = {"icrs": ["pos.eq.ra", "pos.eq.dec"], "fk5": ["pos.eq.ra", "pos.eq.dec"], "fk5_1975": ["pos.eq.ra", "pos.eq.dec"],
+           "fk4_1900": ["pos.eq.ra", "pos.eq.dec"], "galactic": ["pos.galactic.lon", "pos.galactic.lat"]}
+    for f, spec in enumerate(case["subframes"]):
+        if spec["kind"] == "celestial":
+            sub = res["sub"][f]
+            if sub["names"] != ["lon", "lat"] or sub["phys"] != CEL[spec["ref"]]:
+                out.append(("celestial_meta", "a %s celestial frame describes its (longitude, latitude) axes as names %s, physical types %s" %
+                            (spec["ref"], sub["names"], sub["phys"])))
     if len(set(res["class_keys"])) != len(res["class_keys"]) or len({c[0] for c in res["comps"]}) > len(res["class_keys"]):
         out.append(("class_keys", "object class keys %s / components %s are inconsistent" % (res["class_keys"], res["comps"])))
     if "objs_err" in res:
@@ -328,7 +368,7 @@ def _frame_keys(spec):
 
 
 def request(case, res):
-    if case.get("kind") == "slit1" or case.get("lone") or "build_err" in res:
+    if case.get("kind") in ("slit1", "epochless") or case.get("lone") or "build_err" in res:
         return None
     frames = []
     for spec, ao in zip(case["subframes"], case["axes_orders"]):
@@ -357,13 +397,16 @@ def compare(case, res, resp):
 
 
 def nontrivial(case, res):
-    if case.get("kind") == "slit1":
+    if case.get("kind") in ("slit1", "epochless"):
         return True
     flat = [i for ao in case["axes_orders"] for i in ao]
     return flat != sorted(flat)
 
 
 def stats(case, res, st):
+    if case.get("kind") == "epochless":
+        st["epochless_temporal"] += 1
+        return
     if case.get("kind") == "slit1":
         st["slit_1pixel_%dworld" % case["nworld"]] += 1
         return
@@ -379,6 +422,9 @@ def stats(case, res, st):
 
 def gen(rng, tier):
     q = tier == "quick"
+    for _ in range(4 if q else 60):
+        yield {"kind": "epochless", "scale": rng.choice(["tai", "tt", "utc"]), "mjd0": float(rng.randint(50000, 60000)), "step": rng.choice([0.25, 0.5, 2.0]),
+               "p": float(rng.randint(0, 40))}
     for _ in range(8 if q else 150):
         # fewer pixel than world axes: a slit whose single pixel coordinate gives sky position (and wavelength)
         yield {"kind": "slit1", "nworld": rng.choice([2, 3]), "lon0": float(rng.randint(10, 300)), "lat0": float(rng.randint(-60, 60)),
